@@ -69,7 +69,32 @@ def leaf_occurrences(rel, eager=False, lazy=None, eag=None):
     return lazy, eag
 
 
+def uncached_iteration_mats(rel):
+    """Live-reachable iteration-engine Materialization nodes without payload that execute() will evaluate."""
+    out = []
+    stack = [rel]
+    seen = set()
+    while stack:
+        r = stack.pop()
+        if id(r) in seen:
+            continue
+        seen.add(id(r))
+        if r.payload is not None or r.max_rows == 0 or r.is_join_identity:
+            continue
+        if isinstance(r, Materialization) and isinstance(r.engine, iteration.Engine):
+            out.append(r)
+        stack.extend(children(r))
+    return out
+
+
 class ExtraOps:
+    def check_cached(self, ent, mats):
+        for m in mats:
+            if m.payload is None:
+                self.violate("payload_not_cached", {"materialization": m.name,
+                                                    "why": "execute() evaluated the upstream of this node but did not cache the rows"}, entry=ent)
+                return
+
     # ---------------------------------------------------------------- joins
     def _jmodel(self, l, r, p, op, rel):
         eng = rel.engine.name
@@ -675,11 +700,13 @@ class ExtraOps:
         lazy, eag = leaf_occurrences(rel)
         allowed = live_leaf_ids(rel)
         s0 = self.leaf_starts()
+        mats = uncached_iteration_mats(rel)
         try:
             rows = rel.engine.execute(rel)
         except Exception as e:  # noqa
             self.on_exec_exception(t, e)
             return
+        self.check_cached(t, mats)
         s1 = self.leaf_starts()
         self.stats["iterate_ops"] += 1
         for lid in s1:
